@@ -862,9 +862,49 @@ func ruleInvokeShape(c *Ctx, rule string) {
 	okFirst := false
 	forEachReturnValue(inv, 0, func(v ssa.Value, at ssa.Instruction) {
 		if stripConv(v) == ssa.Value(r1) {
-			okFirst = true
+			// ... on the branch where it is an error (returned on the other branch it is a nil 'success' that skips
+			// the second receive)
+			for _, f := range factsAt(at) {
+				if x, op, y, isCmp := cmpFact(f); isCmp && op == token.NEQ && isNilConst(y) && stripConv(x) == ssa.Value(r1) {
+					okFirst = true
+				}
+			}
 		}
 	})
+	// the second receive happens exactly when the first succeeded
+	okSecond := false
+	for _, f := range factsAt(r2) {
+		if x, op, y, isCmp := cmpFact(f); isCmp && op == token.EQL && isNilConst(y) && stripConv(x) == ssa.Value(r1) {
+			okSecond = true
+		}
+	}
+	c.check(okSecond, rule, w.Short(inv)+": second receive follows a successful first one", w.At(r2), "under err == nil of the first receive", "the second receive is not on the branch where the first receive succeeded: a successful unary call returns without checking for further responses")
+	// a second response also ends the RPC on the wire: the stream is cancelled where the Internal error is made
+	okCancel := false
+	allInstrs(inv, func(in ssa.Instruction) {
+		sc, isC := in.(*ssa.Call)
+		if !isC || !strings.HasPrefix(calleeName(sc), "google.golang.org/grpc/status.") || len(sc.Call.Args) == 0 {
+			return
+		}
+		if k, _ := constInt(sc.Call.Args[0]); k != 13 {
+			return
+		}
+		for _, x := range sc.Block().Instrs {
+			ci, isCI := x.(*ssa.Call)
+			if !isCI {
+				continue
+			}
+			if g := staticCallee(ci); g != nil && (w.sameFn(g, a.CancelStream) || w.sameFn(g, a.ClientFinish)) {
+				okCancel = true
+			}
+			if g := staticCallee(ci); g == nil && !ci.Call.IsInvoke() {
+				if _, _, isF := loadedField(ci.Call.Value); isF && strings.HasSuffix(types.TypeString(ci.Call.Value.Type(), nil), "context.CancelFunc") {
+					okCancel = true
+				}
+			}
+		}
+	})
+	c.check(okCancel, rule, w.Short(inv)+": a second response cancels the stream", w.At(r2), "cancel where the Internal error is made", "when the peer sends a second response to a unary call the stream is not cancelled: Invoke returns but the RPC stays open on both ends (table entries, handler, watcher goroutine) until the peer chooses to end it")
 	c.check(okFirst, rule, w.Short(inv)+": error of the first receive returned", w.At(r1), "if err != nil { return err }", "the error of the first receive (e.g. the RPC's status, or zero responses) is not returned to the caller")
 	// flags
 	allInstrs(inv, func(in ssa.Instruction) {
@@ -1073,6 +1113,20 @@ func ruleChannelIdentity(c *Ctx, r4, r5 string) {
 			}
 		})
 		c.check(ok, r4, w.Short(a.Allocate)+": call option target receives this channel", posOf(w, a.Allocate), "*opt.ch = c", "the WithTunnelChannel target is not set to the channel the stream is created on")
+		// ... and the target written there is the location the caller handed to WithTunnelChannel
+		if wtc := w.Func("WithTunnelChannel"); wtc != nil && len(wtc.Params) == 1 {
+			okT := false
+			allInstrs(wtc, func(in ssa.Instruction) {
+				if st, isSt := in.(*ssa.Store); isSt {
+					if fr, _, isF := fieldOfAddr(st.Addr); isF && fr.Type == "tunnelChannelCallOption" && origin(st.Val) == ssa.Value(wtc.Params[0]) {
+						okT = true
+					}
+				}
+			})
+			c.check(okT, r4, "WithTunnelChannel: the option keeps the caller's location", posOf(w, wtc), "option.ch = ch", "the call option does not store the location it was given: the channel is written nowhere (or a nil pointer is dereferenced when an RPC is started with the option)")
+		} else {
+			c.fail(r4, "WithTunnelChannel", "-", "not found")
+		}
 		// the stream's carrier is the channel's carrier
 		okS := false
 		allInstrs(a.Allocate, func(in ssa.Instruction) {
@@ -1438,6 +1492,9 @@ func ruleTimeoutParser(c *Ctx, r1, r2, r3 string) {
 	if okP {
 		b, _ := constInt(parse.Call.Args[1])
 		okP = b == 10
+		if sz, isSz := constInt(parse.Call.Args[2]); !isSz || sz != 64 {
+			okP = false // a narrower size rejects legal 8-digit values; an invalid size rejects everything
+		}
 	}
 	c.check(okP, r3, name+": unsigned base-10 parse", w.At(parse), pn+"(digits, 10, 64)", pn+" accepts a sign (and, for base 0, prefixes/underscores): '-1S' yields a negative duration and expires at once, '+5S' is accepted although malformed")
 	// argument = hdr[:len-1]
@@ -1483,6 +1540,45 @@ func ruleTimeoutParser(c *Ctx, r1, r2, r3 string) {
 	}
 	c.check(lo >= 2, r3, name+": at least one digit and a unit", w.At(parse), fmt.Sprintf("len >= %d", lo), fmt.Sprintf("the parse is dominated only by len >= %d: a bare unit or empty value slices out of range or is accepted", lo))
 	c.check(hi <= 9, r3, name+": at most 8 digits", w.At(parse), fmt.Sprintf("len <= %d", hi), "the parse is not dominated by len(header) <= 9: the specification allows at most 8 digits, and longer values are malformed (and can overflow)")
+	// ... and nothing that IS well-formed is rejected (r1: exactly that duration): one digit plus unit up to eight digits plus unit
+	c.check(lo <= 2 && hi >= 9, r1, name+": every well-formed length is parsed", w.At(parse), fmt.Sprintf("%d <= len <= %d", lo, hi), fmt.Sprintf("the parse is reached only for %d <= len(header) <= %d: the specification allows 1 to 8 digits plus the unit (2..9), so valid headers such as \"5S\" or \"99999999m\" are ignored and the handler runs without its deadline", lo, hi))
+	// the header value is read whenever the key has at least one value
+	vlo := int64(0)
+	var valsCall ssa.Value
+	if u, isU := hdr.(*ssa.UnOp); isU {
+		if ia, isIA := u.X.(*ssa.IndexAddr); isIA {
+			valsCall = ia.X
+		}
+	}
+	if hi2, isI := hdr.(ssa.Instruction); isI && valsCall != nil {
+		for _, f := range factsAt(hi2) {
+			x, op, y, ok := cmpFact(f)
+			if !ok {
+				continue
+			}
+			lc, isL := x.(*ssa.Call)
+			k, isK := constInt(y)
+			if !isL || !isK || calleeName(lc) != "builtin.len" || lc.Call.Args[0] != valsCall {
+				continue
+			}
+			switch op {
+			case token.GEQ:
+				if k > vlo {
+					vlo = k
+				}
+			case token.GTR, token.NEQ:
+				if k+1 > vlo {
+					vlo = k + 1
+				}
+			case token.EQL:
+				vlo = 1 << 30 // only a fixed count accepted
+				if k == 1 {
+					vlo = 1
+				}
+			}
+		}
+		c.check(vlo <= 1, r1, name+": a single header value is enough", w.At(hi2), fmt.Sprintf("read when len(values) >= %d", vlo), fmt.Sprintf("the header is read only when the key has at least %d values: the usual single grpc-timeout value is ignored and the handler runs without its deadline", vlo))
+	}
 	// parse error -> false
 	errV := extractOf(parse, 1)
 	okErr := false
@@ -1499,6 +1595,10 @@ func ruleTimeoutParser(c *Ctx, r1, r2, r3 string) {
 	pv := extractOf(parse, 0)
 	for _, ret := range w.returnsThrough(fn) {
 		t := returnTuple(ret)
+		if t[0] == ssa.Value(mul) && (t[1] == nil || !isConstBool(t[1], true)) {
+			c.fail(r1, fmt.Sprintf("%s: the computed duration is accepted", name), w.At(ret), "the return that yields value x unit does not report ok == true: every well-formed header is ignored")
+			continue
+		}
 		if t[1] == nil || !isConstBool(t[1], true) {
 			continue
 		}
